@@ -81,7 +81,8 @@ where
         )?;
         writeln!(writer, "        Self {{")?;
         writeln!(writer, "            client: reqwest::Client::new(),")?;
-        writeln!(writer, "            location: \"{}\".to_string(),", self.location)?;
+        // the endpoint address is schema text: written as an escaped literal
+        writeln!(writer, "            location: {:?}.to_string(),", self.location.as_str())?;
         writeln!(writer, "            credentials,")?;
         writeln!(writer, "        }}")?;
         writeln!(writer, "    }}")?;
